@@ -105,8 +105,14 @@ class ServiceRegistry:
             if old_service_info is None:
                 continue
             assert old_service_info.server_key is not None
-            self.types[old_service_info.type.lower()].remove(info.key)
+            type_key = old_service_info.type.lower()
+            self.types[type_key].remove(info.key)
+            if not self.types[type_key]:
+                # Do not keep advertising a type that has no instances left
+                del self.types[type_key]
             self.servers[old_service_info.server_key].remove(info.key)
+            if not self.servers[old_service_info.server_key]:
+                del self.servers[old_service_info.server_key]
             del self._services[info.key]
 
         self.has_entries = bool(self._services)
